@@ -21,6 +21,8 @@ package main
 //	          same generated package: plain identifiers, `{{pkg "x"}}Name` / `{{template "tokenPkg" .}}Name`
 //	          (other package), `v.member` where v is the receiver or a parameter of the enclosing function
 //	          whose type is a template-declared type. Comments, string and rune literals are skipped.
+//	          Labels are declared and used like identifiers, named `Func#label`; uses = goto / break / continue
+//	c17LabelNames name ids of the labels (Go also requires every label to be used)
 //	c17DefSigs one readable line per declaration site (pinned by the expectation table)
 //	c17Hashes hashes of gen/templates.go declarations the expectations rely on
 //
@@ -977,6 +979,7 @@ type c17Scanner struct {
 	file      int
 	isDef     map[int]bool      // token index → part of a declaration header
 	fieldType map[string]string // Type.field → template-declared type name of the field (`T` or `*T`)
+	funcAt    map[int]string    // token index of a line-start `func` → declared name (labels are scoped by it)
 }
 
 func (s *c17Scanner) site(t c17Tok, pkg, name, kind string) c17Site {
@@ -1012,13 +1015,41 @@ func (s *c17Scanner) tail(i int) string { // text from the end of token i to the
 	return strings.ReplaceAll(string(s.u.b[k:e]), "\x03", "")
 }
 
+// firstOnLine: only blanks between the start of the line and token j.
+func (s *c17Scanner) firstOnLine(j int) bool {
+	for k := s.toks[j].start - 1; k >= 0 && s.u.b[k] != '\n'; k-- {
+		if c := s.u.b[k]; c != ' ' && c != '\t' && c != 3 {
+			return false
+		}
+	}
+	return true
+}
+
+// isLabel: token j is `name:` alone on its line.
+func (s *c17Scanner) isLabel(j int) bool {
+	t := s.toks[j]
+	if c17Keywords[t.name] || strings.Contains(t.name, "*") || t.afterDot || t.pkg != "" || !s.firstOnLine(j) {
+		return false
+	}
+	rest := strings.TrimRight(s.tail(j), " \t\r")
+	return rest == ":"
+}
+
 func (s *c17Scanner) defs() []c17Site {
 	var out []c17Site
 	s.isDef = map[int]bool{}
 	s.fieldType = map[string]string{}
+	s.funcAt = map[int]string{}
 	toks := s.toks
+	cur := "" // enclosing function
 	for i := 0; i < len(toks); i++ {
 		t := toks[i]
+		if cur != "" && s.isLabel(i) {
+			// a label: `goto` needs it, and Go rejects a label that no goto / break / continue names
+			s.isDef[i] = true
+			out = append(out, s.site(t, s.pkg, cur+"#"+t.name, "label"))
+			continue
+		}
 		if !t.lineStart || i+1 >= len(toks) {
 			continue
 		}
@@ -1046,9 +1077,13 @@ func (s *c17Scanner) defs() []c17Site {
 				}
 				s.isDef[j] = true
 				out = append(out, s.site(toks[j], s.pkg, rt.name+"."+toks[j].name, "method"))
+				cur = rt.name + "." + toks[j].name
+				s.funcAt[i] = cur
 			} else if s.sameLine(i, i+1) {
 				s.isDef[i+1] = true
 				out = append(out, s.site(toks[i+1], s.pkg, toks[i+1].name, "func"))
+				cur = toks[i+1].name
+				s.funcAt[i] = cur
 			}
 		case "type":
 			if !s.sameLine(i, i+1) || strings.TrimSpace(s.between(i, i+1)) != "" {
@@ -1130,10 +1165,20 @@ func (s *c17Scanner) uses(declared map[string]map[string]bool, types map[string]
 	var out []c17Site
 	toks := s.toks
 	scope := map[string]string{} // variable → template-declared type of the current function
+	cur := ""
 	for i := 0; i < len(toks); i++ {
 		t := toks[i]
+		if (t.name == "goto" || t.name == "break" || t.name == "continue") && !t.afterDot && cur != "" && i+1 < len(toks) && s.sameLine(i, i+1) &&
+			strings.TrimSpace(s.between(i, i+1)) == "" {
+			if n := cur + "#" + toks[i+1].name; declared[s.pkg][n] {
+				out = append(out, s.site(toks[i+1], s.pkg, n, "use"))
+			}
+		}
 		if t.lineStart {
 			if t.name == "func" {
+				if f, ok := s.funcAt[i]; ok {
+					cur = f
+				}
 				scope = map[string]string{}
 				// signature: `ident Type` / `ident *Type` pairs up to the end of the line
 				for j := i + 1; j+1 < len(toks) && s.sameLine(i, j+1); j++ {
@@ -1293,6 +1338,7 @@ func extractC17(p *Program, w *Section) {
 	w.Declare("c17Names", "TmplName")
 	w.Declare("c17Tmpls", "String")
 	w.Declare("c17Groups", "TmplGroup")
+	w.Declare("c17LabelNames", "Nat")
 	w.Declare("c17Hashes", "TmplHash")
 	w.Declare("c17DefSigs", "String")
 	w.Declare("c17Problems", "String")
@@ -1650,6 +1696,21 @@ func extractC17(p *Program, w *Section) {
 		groupItems = append(groupItems, fmt.Sprintf("⟨%d,\n    [%s],\n    [%s]⟩", n, strings.Join(ds, ",\n     "), strings.Join(us, ",\n     ")))
 	}
 	c17DefOrdered(w, "c17Groups", "TmplGroup", groupItems)
+	w.Comment("Name ids of the labels (`Func#label`): besides `goto → label`, Go requires every label to be used.")
+	var labelItems []string
+	labelSeen := map[int]bool{}
+	for _, d := range allDefs {
+		if n := nameID[d.pkg+"\x00"+d.name]; d.kind == "label" && !labelSeen[n] {
+			labelSeen[n] = true
+			labelItems = append(labelItems, fmt.Sprint(n))
+		}
+	}
+	sort.Slice(labelItems, func(i, j int) bool {
+		a, _ := strconv.Atoi(labelItems[i])
+		b, _ := strconv.Atoi(labelItems[j])
+		return a < b
+	})
+	c17DefOrdered(w, "c17LabelNames", "Nat", labelItems)
 	sort.Strings(useSigs)
 	useSigs = slicesCompact(useSigs)
 	hashes = append(hashes, leanRec("digest of the use sites", fmt.Sprintf("%d:%x", len(useSigs), sha256.Sum256([]byte(strings.Join(useSigs, "\n"))))[:24]))
